@@ -120,7 +120,9 @@ class AsyncListener:
             and self.last_addrs == addrs
             and (now - _DUPLICATE_PACKET_SUPPRESSION_INTERVAL) < self.last_time
             and self.last_message is not None
-            and not self.last_message.has_qu_question()
+            # only a query is exempt: two queriers may send the same QU query
+            # and each is owed its unicast answer, a response is a response
+            and not (self.last_message.is_query() and self.last_message.has_qu_question())
         ):
             # Guard against duplicate packets
             if debug:
